@@ -141,6 +141,22 @@ def handle (words : List String) : String :=
     match (obs.splitOn ",").mapM parse with
     | some l => if Spec.Flood.windowOk l then "ok" else "fail"
     | none => "bad-op"
+  | ["spec10ws", slack, obs] =>
+    -- the window bound with a tolerance for the one thing an outside observer cannot see: how late after its timer the
+    -- FIRST line of a run was really written (later lines are only ever later). Every run i..j is judged by
+    -- `Spec.Flood.windowFrom` with `slack` added to the write times after the first.
+    let parse (p : String) : Option (Nat × Int) :=
+      match p.splitOn ":" with
+      | [c, w] => do pure ((← c.toNat?), (← w.toInt?))
+      | _ => none
+    match slack.toInt?, (obs.splitOn ",").mapM parse with
+    | some sl, some l =>
+      let ok := (List.range l.length).all fun i =>
+        match l.drop i with
+        | [] => true
+        | x :: rest => Spec.Flood.windowFrom (x :: rest.map fun (c, w) => (c, w + sl))
+      if ok then "ok" else "fail"
+    | _, _ => "bad-op"
   | ["cut", t] =>
     match hexDecode t with
     | some t => hexEncode (cutNewLines t)
